@@ -18,7 +18,7 @@ IMPORTS = ("From JV Require Import Lib.Base Lib.Regex Model.TyVal Model.Scalar M
            "Gen.C01Tables Corr.C01Judge.")
 RULE = ("one case = (parser, accepted configuration, variant): parser = 1-5 leaves, some under nested groups (dotted keys, "
         "depth <= 3), each with a type drawn from the grammar str/int/float/bool/Any, Optional, Union (int|str, str|int, "
-        "float|str, int|float, bool|int, List[int]|str, ...), List, Dict[str,T], Dict[int,T], Tuple[...], Tuple[T,...], Set, "
+        "float|str, int|float, bool|int, List[int]|str, ...), List, Dict[str,T], Dict[int,T], typing.OrderedDict[str,T], Tuple[...], Tuple[T,...], Set, "
         "Literal, two Enums (one whose member names are YAML booleans/null), two dataclasses used as type-hint VALUES (Limits, "
         "Sched with a nested Optional[Limits]; below Optional / List / Dict / Tuple, fields left out, given, or explicitly null over "
         "None and non-None field defaults), a subclass-typed argument (Base with classes Base / Sub(**kwargs forwarded) / KW(only "
@@ -30,7 +30,7 @@ RULE = ("one case = (parser, accepted configuration, variant): parser = 1-5 leav
         "characters, NEL/DEL/C1) and random strings over a numeric-looking alphabet, also as dict keys; variant = "
         "dump(yaml|json|json_indented, skip_none=False)[+skip_default], --print_config[=skip_default|comments] re-fed through "
         "--cfg, save()[default skip_none | skip_none=False] + parse_path; a quarter of the random cases and a dedicated sweep run on a "
-        "parser object with a HISTORY (earlier dumps incl. skip_default, an earlier parse, then set_defaults() or a default config "
+        "parser object with a HISTORY (earlier dumps incl. skip_default, an earlier parse, an earlier command line rejected part-way at its --cfg, then set_defaults() or a default config "
         "file changing a declared default; the configuration then often sets that key back to its OLD default) and are judged "
         "against the defaults in force at the end; subclass specs: 6 specs x 3 defaults x 8 variants; quick: systematic single-leaf sweep of the pool over every str-admitting type and format, 9 dataclass-valued configurations x 8 variants, and of "
         "every str-admitting type and format + 900 random cases, thorough: + 9000; non-trivial = the configuration was "
@@ -50,6 +50,9 @@ ASSUMPTIONS = [
     "declared defaults are well typed (or None); argument keys are identifiers",
     "dict and set values are compared unordered (Python ==), everything else value for value and type for type; NaN = NaN",
     "Any-typed leaves hold JSON-like values whose strings the loader reads as themselves",
+    "'the configuration' of the property is the object handed to dump / save: it is looked at again after the call and has "
+    "to be what it was before (not observed for --print_config, which serialises inside its own parse); OrderedDict and dict "
+    "are one mapping at value level",
     "a generated set value holds at most one NaN (elements are distinct as written): two NaN objects are two elements of a "
     "Python set but a single one after any reload (float identity, not jsonargparse); NaN = NaN in the comparison of configurations",
     "a parser's answers do not depend on what was done with the parser object before: a case with a history is judged by the "
@@ -131,7 +134,7 @@ def gen_type(rng, depth=0, hashable=False):
         return rng.choice(BASE + ["str"])
     if hashable:
         return ["tuple", [gen_type(rng, 2, True) for _ in range(rng.randint(1, 2))]] if r < 0.5 else gen_type(rng, 2, True)
-    k = rng.choice(["opt", "opt", "union", "list", "list", "dict", "dict", "dict_int", "tuple", "tuplevar", "set"])
+    k = rng.choice(["opt", "opt", "union", "list", "list", "dict", "dict", "odict", "dict_int", "tuple", "tuplevar", "set"])
     if k == "opt":
         return ["opt", gen_type(rng, depth + 1)]
     if k == "union":
@@ -212,6 +215,8 @@ def gen_value(rng, t):
             if key != "class_path":
                 d[key] = gen_value(rng, t[1])
         return d
+    if k == "odict":      # typing.OrderedDict[str, T]: the one mapping the config copies do not rebuild
+        return {"$od": [[key, gen_value(rng, t[1])] for key in dict.fromkeys(rng.choice(WORDS + ["1e3", "a: b"]) for _ in range(rng.randint(0, 3)))]}
     if k == "dict_int":
         keys = sorted({gen_int(rng) for _ in range(rng.randint(0, 3))})
         return {"$d": [[key, gen_value(rng, t[1])] for key in keys]}
@@ -325,8 +330,8 @@ def to_argv_text(v, top=True):
                 return [plain(y) for y in x.get("$t", x.get("$s"))]
             if "$e" in x:
                 return x["$e"][1]
-            if "$d" in x:
-                return {str(k): plain(y) for k, y in x["$d"]}
+            if "$d" in x or "$od" in x:
+                return {str(k): plain(y) for k, y in x.get("$d", x.get("$od"))}
             return {k: plain(y) for k, y in x.items()}
         if isinstance(x, list):
             return [plain(y) for y in x]
@@ -456,6 +461,29 @@ def random_case(rng):
     return case
 
 
+def rejected_parse_step(rng, leaves):
+    """an earlier command line on the same parser: the leaves' values (other values of the same types now and then), then a
+    --cfg whose content is rejected (a wrong-typed value for a scalar leaf); the caller catches the error"""
+    bad = [k for k, t, d, v in leaves if t in ("int", "float", "bool") or t in (["opt", "int"], ["opt", "float"], ["opt", "bool"])]
+    if not bad:
+        return None
+    argv = []
+    for k, t, d, v in leaves:
+        if v is ABSENT or k in bad:
+            continue
+        x = v if rng.random() < 0.6 else gen_value(rng, t)
+        if x is not None:
+            argv.append("--%s=%s" % (k, to_argv_text(x)))
+    k = rng.choice(bad)
+    content = {}
+    cur = content
+    parts = k.split(".")
+    for p in parts[:-1]:
+        cur = cur.setdefault(p, {})
+    cur[parts[-1]] = "not a number"
+    return {"op": "rejected_parse", "argv": argv + ["--cfg=" + json.dumps(content)]}
+
+
 def gen_history(rng, leaves, variant):
     """what was done with the same parser object before: dumps (also skip_default) of its defaults, an earlier parse, then
     possibly a change of the defaults (set_defaults / a default config file) — the configuration of the case often sets a
@@ -469,6 +497,9 @@ def gen_history(rng, leaves, variant):
                          "skip_default": sd if rng.random() < 0.8 else not sd})
         else:
             hist.append({"op": "parse", "obj": {}})
+    rj = rejected_parse_step(rng, leaves)
+    if rj and rng.random() < 0.4:
+        hist.insert(rng.randint(0, len(hist)), rj)
     cand = [(k, t, d) for k, t, d, v in leaves if not has_dc(t) and not has_sub(t)]
     if cand and rng.random() < 0.8:
         k, t, d = rng.choice(cand)
@@ -559,6 +590,20 @@ def sweep_cases(rng, tier):
     for key, t, d, v in dvals:
         for var in keep:
             cases.append(make_case(rng, [(key, t, d, v), ("seed", ["opt", "int"], 7, 3)], dict(var)))
+    # mappings whose items need serialising (Enum -> name, Tuple -> list, Set -> list), also typing.OrderedDict — the one mapping
+    # the config copies do not rebuild —, as value and as declared default, every variant: the configuration that was
+    # serialised must still be the same afterwards
+    for t, v in [(["odict", ["enum", "Color"]], {"$od": [["a", {"$e": ["Color", "RED"]}], ["1e3", {"$e": ["Color", "BLUE"]}]]}),
+                 (["odict", ["tuple", ["int", "str"]]], {"$od": [["k", {"$t": [1, "null"]}]]}),
+                 (["odict", ["set", "int"]], {"$od": [["s", {"$s": [3, 1]}]]}),
+                 (["dict", ["enum", "Sw"]], {"on": {"$e": ["Sw", "on"]}, "x": {"$e": ["Sw", "no"]}}),
+                 (["list", ["odict", ["enum", "Color"]]], [{"$od": [["a", {"$e": ["Color", "GREEN"]}]]}]),
+                 (["opt", ["odict", "str"]], {"$od": [["a", "1e3"], ["b", "a: b"]]})]:
+        for var in keep:
+            for d in (None, v):
+                if tier == "quick" and rng.random() < 0.4:
+                    continue
+                cases.append(make_case(rng, [("od", t, d, v if rng.random() < 0.7 else ABSENT), ("seed", ["opt", "int"], 7, 3)], dict(var)))
     # subclass-typed arguments: every class, init_args given / left out / null, dict_kwargs, over a None and a spec default
     svals = [{"class_path": "Sub"}, {"class_path": "__main__.Sub", "init_args": {"b": 3, "name": None, "flag": None}},
              {"class_path": "__main__.Base", "init_args": {"name": "1e3"}}, {"class_path": "KW", "dict_kwargs": {"k": 1, "s": "a b"}},
@@ -570,7 +615,11 @@ def sweep_cases(rng, tier):
                 if tier == "quick" and rng.random() < 0.5:
                     continue
                 t = ["sub", "Base"] if rng.random() < 0.7 else ["opt", ["sub", "Base"]]
-                cases.append(make_case(rng, [("m", t, sdf, sv), ("seed", ["opt", "int"], 7, 3)], dict(var)))
+                lv = [("m", t, sdf, sv), ("seed", ["opt", "int"], 7, 3)]
+                c = make_case(rng, lv, dict(var))
+                if rng.random() < 0.4:      # ... after an earlier command line of the same parser was rejected part-way
+                    c["history"] = [rejected_parse_step(rng, [("m", t, sdf, rng.choice(svals)), lv[1]])]
+                cases.append(c)
     cases.append(make_case(rng, [("m", ["sub", "Base"], {"class_path": "__main__.Sub", "init_args": {"b": 3, "name": "n"}},
                                   {"class_path": "__main__.Base", "init_args": {"a": 10, "name": None}})],
                            {"kind": "dump", "format": "yaml", "skip_none": False, "skip_default": True}))
@@ -663,8 +712,8 @@ def g_val(v):
             return "(VSet %s)" % g_list([g_val(x) for x in v["$s"]], "val")
         if "$e" in v:
             return "(VEnum %s %s)" % (g_str(v["$e"][0]), g_str(v["$e"][1]))
-        if "$d" in v:
-            return "(VDict %s)" % g_list([g_pair(g_val(k), g_val(x)) for k, x in v["$d"]], "(val * val)")
+        if "$d" in v or "$od" in v:
+            return "(VDict %s)" % g_list([g_pair(g_val(k), g_val(x)) for k, x in v.get("$d", v.get("$od"))], "(val * val)")
         if "$o" in v:
             return "(VOpaque %s %s)" % (g_str(v["$o"][0]), g_str(v["$o"][1]))
         return "(VDict %s)" % g_list([g_pair(g_val(k), g_val(x)) for k, x in v.items()], "(val * val)")
@@ -688,6 +737,8 @@ def g_ty(t):
         return "(CDict false %s)" % g_ty(t[1])
     if k == "dict_int":
         return "(CDict true %s)" % g_ty(t[1])
+    if k == "odict":      # OrderedDict(val) / dict(val): the same mapping at value level
+        return "(CDict false %s)" % g_ty(t[1])
     if k == "tuple":
         return "(CTuple %s)" % g_list([g_ty(x) for x in t[1]], "cty")
     if k == "tuplevar":
@@ -728,7 +779,7 @@ def variant_flags(v):
 
 
 EMPTY_TERM = ("{| c_leaves := []; c_var := {| vr_fmt := FYaml; vr_skip_none := false; vr_skip_default := false; vr_comments := false |}; "
-              "c_strs := []; c_floats := []; c_dumped := Some []; c_reloaded := Some []; c_out := Some [] |}")
+              "c_strs := []; c_floats := []; c_dumped := Some []; c_reloaded := Some []; c_out := Some []; c_after := None |}")
 
 
 def accepted(obs):
@@ -774,9 +825,17 @@ def term(case, obs):
             out = "(Some %s)" % g_list([g_val(d1[k]) for k in keys], "val")
         else:
             out = "None"
+    a = obs.get("cfg0_after")
+    if a is None:
+        after = "None"
+    elif isinstance(a, list) and sorted(k for k, _ in a) == keys:
+        da = {k: v for k, v in a}
+        after = "(Some %s)" % g_list([g_val(da[k]) for k in keys], "val")
+    else:
+        after = "(Some [])"      # the object no longer has the declared leaves: differs from every non-empty configuration
     return ("{| c_leaves := %s; c_var := {| vr_fmt := %s; vr_skip_none := %s; vr_skip_default := %s; vr_comments := %s |}; c_strs := %s; "
-            "c_floats := %s; c_dumped := %s; c_reloaded := %s; c_out := %s |}"
-            % (leaves, fmt, g_bool(sn), g_bool(sd), g_bool(cm), strs, floats, dumped, reloaded, out))
+            "c_floats := %s; c_dumped := %s; c_reloaded := %s; c_out := %s; c_after := %s |}"
+            % (leaves, fmt, g_bool(sn), g_bool(sd), g_bool(cm), strs, floats, dumped, reloaded, out, after))
 
 
 def nontrivial_key(case, obs):
@@ -809,6 +868,7 @@ def describe(case, obs):
             "accepted configuration": obs.get("cfg0"),
             "emitted text": obs.get("text"),
             "re-parsed configuration": obs.get("cfg1"),
+            "the configuration object after the serialisation": obs.get("cfg0_after"),
             "status": obs.get("status"), "msg": obs.get("msg")}
 
 
